@@ -126,6 +126,10 @@ Conflict(a, b) ==
 \* payloads of the current height broadcast up to and including callback j of this call
 SentBase(e) == IF e.fresh THEN {} ELSE sent[e.n]
 SentBefore(e, j) == SentBase(e) \cup UNION {OwnAt(e, k) : k \in {x \in Bcs(e) : x < j}}
+\* KF-1 is the onPrepareRequest path: a node that broadcast the view's proposal itself went through sendPrepareRequest, which
+\* validates what it had received early AFTER storing its request - the known finding does not cover it
+OwnProposalFor(e, j) == \E p \in SentBefore(e, j) : p.t = "PrepareRequest" /\ p.h = e.cb[j].at.h /\ p.v = e.cb[j].at.v /\ p.from = e.cb[j].at.me
+KF1At(e, j) == KF1(e.cb[j].at) /\ ~OwnProposalFor(e, j)
 NonEquivocation(e, j) ==
   \A a \in {p \in OwnAt(e, j) : p.h = e.cb[j].at.h} :
      \A b \in {q \in SentBefore(e, j) : q.h = a.h} : ~Conflict(a, b)
@@ -436,8 +440,8 @@ StepViolations(e, pre, cfg) ==
   LET P(id, name, ok) == IF ok THEN {} ELSE {<<id, name, "">>}
       PerBlock == UNION { ( IF Forks(e, j) = {} THEN {}
                             ELSE {<<"C01", "Agreement",
-                                   IF KF1(e.cb[j].at) \/ \E x \in Forks(e, j) : acc[x[1]][x[2]].kf THEN "KF-1" ELSE "">>} )
-                          \cup ( IF CertCount(e, j) THEN {} ELSE {<<"C02", "CertCount", IF KF1(e.cb[j].at) THEN "KF-1" ELSE "">>} )
+                                   IF KF1At(e, j) \/ \E x \in Forks(e, j) : acc[x[1]][x[2]].kf THEN "KF-1" ELSE "">>} )
+                          \cup ( IF CertCount(e, j) THEN {} ELSE {<<"C02", "CertCount", IF KF1At(e, j) THEN "KF-1" ELSE "">>} )
                           \cup P("C02", "CertTip", CertTip(e, j))
                           \cup P("C02", "CertProposal", CertProposal(e, j))
                           \cup P("C05", "OneDecision", OneDecision(e, j))
@@ -514,7 +518,7 @@ NextAcc(e) ==
       js == OkCb(e, "ProcessBlock")
   IN IF js = {} THEN old
      ELSE LET j == CHOOSE x \in js : TRUE
-          IN Append(old, [h |-> e.cb[j].block.h, b |-> e.cb[j].block, kf |-> KF1(e.cb[j].at)])
+          IN Append(old, [h |-> e.cb[j].block.h, b |-> e.cb[j].block, kf |-> KF1At(e, j)])
 NextPreOk(e, pre) == (IF NewHeight(e, pre) THEN 0 ELSE preOk[e.n]) + Cardinality(OkCb(e, "ProcessPreBlock"))
 
 -----------------------------------------------------------------------------
